@@ -330,7 +330,17 @@ func (s *session) runV1(name string, op J) J {
 		cl.GetNativeInterpreter().AddUpdater(str(op, "table"), str(op, "expr"), func(item, attrs map[string]*mt.Item) {
 			s.fired = append(s.fired, id)
 			for k, v := range set {
-				item[k] = v
+				if k != "@poke" {
+					item[k] = v
+				}
+			}
+			if _, poke := set["@poke"]; poke {
+				// an in-place write into every top-level map attribute of the item the updater was handed
+				for _, v := range item {
+					if v != nil && v.M != nil {
+						v.M["poked"] = &mt.Item{S: sp("p")}
+					}
+				}
 			}
 		})
 		return J{"r": "ok"}
